@@ -21,6 +21,7 @@ type (
 		fatal      bool          // parser encountered a fatal error
 		lookahead  *item         // lookahead token
 		checks     []typeCheck   // checks to perform on the namespace
+		index      typeIndex     // lookup index for the type checks
 	}
 )
 
